@@ -94,6 +94,18 @@ def _build_level(spec):
 
     d = spec["make"]()
     if spec["kind"] == "mem":
+        # the mapping handed to the partition may be any dictionary kind a body would naturally build
+        how = spec.get("container", "dict")
+        if how == "defaultdict":
+            import collections
+
+            dd = collections.defaultdict(list)
+            dd.update(d)
+            d = dd
+        elif how == "ordered":
+            import collections
+
+            d = collections.OrderedDict(d)
         return InMemoryPartition(d)
     p = OnDiskPartition()
     for k, v in d.items():
